@@ -10,6 +10,7 @@ def _place_sources(body, place, acc, seen, depth, through_calls):
     for p in projs:
         if isinstance(p, list) and p[0] == "f" and len(p) == 4:
             acc.add(("field", p[1], p[3]))
+            acc.add(("vfield", p[1], p[2], p[3]))
         if isinstance(p, list) and p[0] == "i":
             _local_sources(body, p[1], acc, seen, depth, through_calls)
     _local_sources(body, local, acc, seen, depth, through_calls)
